@@ -437,6 +437,9 @@ func init() {
 				return sc
 			}(), Oracles: o, Post: queryPost},
 			{Name: "mod-queries", Sc: scMod(defaultParams(), []Template{tMod1, tModPoor}, AlphaOpts{RespKinds: []string{"ok"}, ModOps: []string{"mpause", "mkill"}}, 6+d, 4, 2), Oracles: o, Post: queryPost},
+			{Name: "life-queries-restart", Sc: restartable(scLife(defaultParams(), []Template{tRep2, tLong}, lo, 6+d, 4, 2)), Oracles: o, Post: queryPost},
+			{Name: "fx-queries", Sc: scFX(defaultParams(), "fusd1v", []Template{tFxOne, tFxRep}, AlphaOpts{RespKinds: []string{"ok"}, Withdraw: []string{"O1:"},
+				BindOps: []Action{actUpdate("a", "P1", "O1", 0, "fcent150", 0), actUpdate("a", "P2", "O2", 0, "fkilo1h", 0)}}, fxSpec(), 5+d, 3, 2), Oracles: o, Post: queryPost},
 		}
 	}})
 	register(&CheckSpec{Prop: "C18", Runs: func(tier string) []RunSpec {
@@ -465,6 +468,9 @@ func init() {
 			{Name: "fees-self-export-points", Sc: scFeesSelf(paramSet("0.1", "0.001"), 5+d, 3, 3), Oracles: o, Post: genesisPost},
 			{Name: "names-export-points", Sc: scNames(defaultParams(), 5+d, 3, 4), Oracles: o, Post: genesisPost},
 			{Name: "mod-export-points", Sc: scMod(defaultParams(), []Template{tMod1, tModPoor}, AlphaOpts{RespKinds: []string{"ok"}, ModOps: []string{"mpause", "mkill"}}, 6+d, 4, 2), Oracles: o, Post: genesisPost},
+			{Name: "life-restart-export-points", Sc: restartable(scLife(defaultParams(), []Template{tRep2, tLong}, mainO, 6+d, 4, 2)), Oracles: o, Post: genesisPost},
+			{Name: "fx-export-points", Sc: scFX(defaultParams(), "fusd1v", []Template{tFxOne, tFxRep}, AlphaOpts{RespKinds: []string{"ok"}, CtxOps: []string{"pause"}, Withdraw: []string{"O1:"},
+				BindOps: []Action{actUpdate("a", "P1", "O1", 0, "fcent150", 0), actUpdate("a", "P2", "O2", 0, "fkilo1h", 0)}}, fxSpec(), 5+d, 3, 2), Oracles: o, Post: genesisPost},
 			// deposits slashed to exactly nothing: slash fraction 1, and a slash after the deposit was taken back
 			{Name: "slash-all-export-points", Sc: scBind(paramSet("0.5", "1"), bindOpsSmall(), []Template{tSlash2}, []string{"bad"}, 5+d, 3, 2), Oracles: o, Post: genesisPost},
 			func() RunSpec {
